@@ -362,14 +362,58 @@ class Exec:
     @staticmethod
     def _lengthlike(lf):
         """only size parameters / remaining-length phis / their quotients: values that are counts, not data"""
-        return all(s_ == 1 or (isinstance(s_, tuple) and s_[0] in ("n", "hd", "quo", "rem")) for s_ in lf)
+        return all(s_ == 1 or (isinstance(s_, tuple) and s_[0] in ("n", "hd", "quo", "rem", "amod")) for s_ in lf)
 
-    def _divmod(self, p, I, sa, cb, want_quo):
+    def _addr_lf(self, p, ob, c):
+        """the numeric address of byte c of object ob: 16 * (opaque) + al * (position of the object within a 16-byte line, unknown) + c, where
+        al is the alignment the object is known to have (locals and globals: what the compiler gave them; everything else: none)"""
+        al = 1
+        if ob[0] == "alloca" and isinstance(ob[1], int):
+            al = self.f.insts[ob[1]].get("align") or 1
+        if al >= 16:
+            return Lf({("addr", ob): 16, 1: c})
+        while al & (al - 1):
+            al &= al - 1
+        sym = ("amod", ob)
+        bound = ("ult", Lf({sym: 1, 1: -(16 // al)}), True)
+        if bound not in p.conds:
+            p.conds.append(bound)
+        return Lf({("addr", ob): 16, sym: al, 1: c})
+
+    @staticmethod
+    def _addrlike(lf):
+        return any(isinstance(s_, tuple) and s_[0] in ("addr", "amod") for s_ in lf)
+
+    def _lowbits(self, p, I, x, m):
+        """x & m for a mask m = 2^j - 1 <= 15 and an address-like x: only the position within the line matters; the remainder of the variable
+        part is one symbol shared by all offsets into the same object"""
+        M = m + 1
+        var, c0 = Lf(), 0
+        for s_, c in self.subst(p, x).items():
+            if s_ == 1:
+                c0 = c % M
+            elif c % M:
+                var = var.add(Lf({s_: c % M}))
+        if not var:
+            return Lf.c(c0)
+        if not self._lengthlike(var):
+            return None
+        r = self._divmod(p, I, var, M, False, tag=("lo", repr(var), M))
+        if self.subst(p, r).const() is not None:
+            r = self.subst(p, r)
+        if not c0:
+            return r
+        if r.const() is not None:
+            return Lf.c((r.const() + c0) % M)
+        return self._divmod(p, I, r.add(Lf.c(c0)), M, False, tag=("lo", repr(r), c0, M))
+
+    def _divmod(self, p, I, sa, cb, want_quo, tag=None):
         """x = cb * Q + R with fresh symbols Q >= 0 and 0 <= R < cb (recorded on the path)"""
         key = (repr(sa), cb)
         if key not in p.divs:
-            p.divs[key] = (("quo", I.id), ("rem", I.id), sa, cb)
-            p.conds.append(("ult", Lf({("rem", I.id): 1, 1: -cb}), True))
+            nm = I.id if tag is None else tag
+            p.divs[key] = (("quo", nm), ("rem", nm), sa, cb)
+            p.conds.append(("ult", Lf({("rem", nm): 1, 1: -cb}), True))
         qs, rs, _, _ = p.divs[key]
         return Lf.s(qs) if want_quo else Lf.s(rs)
 
@@ -692,6 +736,23 @@ class Exec:
                 if dec is not None:
                     pred, b = b, (succ[0] if dec else succ[1])
                     continue
+                al_ = self._alts(p, c)
+                if al_ is not None:
+                    # an alignment test over several pointers: one path per elementary alternative
+                    for truth, asm in al_:
+                        qs_ = [p.clone()]
+                        for (c_, t_) in asm:
+                            nx_ = []
+                            for q in qs_:
+                                if self._decide(q, c_) is None:
+                                    nx_.extend(self._split(q, self._assume(q, c_, t_)))
+                                elif self._decide(q, c_) == t_:
+                                    nx_.append(q)
+                            qs_ = nx_
+                        for q in qs_:
+                            q.events.append(("align-class", truth))
+                            work.append((succ[0] if truth else succ[1], b, q, "fork"))
+                    return
                 q = p.clone()
                 sp = self._assume(q, c, False)
                 exq = self.exit_eq.get(b) if (b in self.heads and origin == b) else None
@@ -900,7 +961,38 @@ class Exec:
     def _root(self, obj):
         return self.hdp_origin.get(obj, obj) if obj[0] == "hdp" else obj
 
+    @staticmethod
+    def _orlf_terms(c):
+        """(terms, eq?) if c compares a union of low address bits with zero"""
+        if isinstance(c, tuple) and c and c[0] == "icmp" and c[1] in ("eq", "ne"):
+            for x, y in ((c[2], c[3]), (c[3], c[2])):
+                if isinstance(x, tuple) and x and x[0] == "orlf" and isinstance(y, Lf) and y.const() == 0:
+                    return list(x[1]), c[1] == "eq"
+        return None
+
+    def _alts(self, p, c):
+        """an undecided test `(t1 | t2 | ...) == 0` of low address bits as alternatives of elementary assumptions:
+        all terms zero / the first i terms zero and the next one not"""
+        ot = self._orlf_terms(c)
+        if ot is None:
+            return None
+        ts, iseq = ot
+        ts = [t_ for t_ in ts if self._decide(p, ("icmp", "eq", t_, Lf.c(0))) is not True]
+        out = []
+        for i, t_ in enumerate(ts):
+            out.append((not iseq, [(("icmp", "eq", u_, Lf.c(0)), True) for u_ in ts[:i]] + [(("icmp", "eq", t_, Lf.c(0)), False)]))
+        out.append((iseq, [(("icmp", "eq", u_, Lf.c(0)), True) for u_ in ts]))
+        return out
+
     def _decide(self, p, c, ranges=True):
+        ot = self._orlf_terms(c)
+        if ot is not None:
+            ds = [self._decide(p, ("icmp", "eq", t_, Lf.c(0)), ranges) for t_ in ot[0]]
+            if any(d_ is False for d_ in ds):
+                return not ot[1]
+            if all(d_ is True for d_ in ds):
+                return ot[1]
+            return None
         if isinstance(c, tuple) and c and c[0] == "icmp":
             _, pred, a, b = c
             if not (isinstance(a, (Lf, list)) and isinstance(b, (Lf, list))):
@@ -1107,8 +1199,7 @@ class Exec:
             v = self.val(p, o[0])
             ob, of = (v.base() if not is_word(v) else (None, None))
             if ob is not None and of.const() is not None:
-                # numeric address = 16 * (opaque) + offset: the object itself is assumed 16-byte aligned in this evaluation
-                p.env[k] = Lf({("addr", ob): 16, 1: of.const()})
+                p.env[k] = self._addr_lf(p, ob, of.const())
             else:
                 p.env[k] = [gf2.TOP] * 64
             return
@@ -1193,9 +1284,39 @@ class Exec:
         if op in ("xor", "and", "or"):
             a, b = self.val(p, o[0]), self.val(p, o[1])
             w = I.bits
+            if op == "or" and not is_word(a) and not is_word(b):
+                # the union of the low bits of addresses (alignment tests): kept as a set of terms until a mask says which bits matter
+                ta = list(a[1]) if isinstance(a, tuple) and a[0] == "orlf" else ([a] if isinstance(a, Lf) else None)
+                tb = list(b[1]) if isinstance(b, tuple) and b[0] == "orlf" else ([b] if isinstance(b, Lf) else None)
+                if ta is not None and tb is not None and all(self._addrlike(t_) for t_ in ta + tb):
+                    p.env[k] = ("orlf", tuple(ta + tb))
+                    return
+            if op == "and" and (isinstance(a, tuple) or isinstance(b, tuple)):
+                x, y = (a, b) if isinstance(a, tuple) else (b, a)
+                m = y.const() if isinstance(y, Lf) else None
+                if x[0] == "orlf" and m is not None and 0 < m < 16 and (m & (m + 1)) == 0:
+                    ts = [self._lowbits(p, I, t_, m) for t_ in x[1]]
+                    if all(t_ is not None for t_ in ts):
+                        ks = [t_.const() for t_ in ts]
+                        if all(c_ is not None for c_ in ks):
+                            r_ = 0
+                            for c_ in ks:
+                                r_ |= c_
+                            p.env[k] = Lf.c(r_)
+                        else:
+                            p.env[k] = ("orlf", tuple(ts))
+                        return
+            if isinstance(a, tuple) or isinstance(b, tuple):
+                p.env[k] = [gf2.TOP] * w
+                return
             if op == "and" and not is_word(a) and not is_word(b):
                 for x, y in ((a, b), (b, a)):
                     m = y.const()
+                    if m is not None and 0 < m < 16 and (m & (m + 1)) == 0 and self._addrlike(x) and any(isinstance(s_, tuple) and s_[0] == "amod" for s_ in x):
+                        r_ = self._lowbits(p, I, x, m)
+                        if r_ is not None:
+                            p.env[k] = r_
+                            return
                     if m is not None and m >= 0 and (m & (m + 1)) == 0 and x.const() is None:
                         if all(c % (m + 1) == 0 for s_, c in x.items() if s_ != 1):
                             p.env[k] = Lf.c(x.get(1, 0) & m)
